@@ -29,7 +29,7 @@ FILENAME = 'valjean.env'
 class History:
     """Executes runs of a job on the real code; faults are applied between runs."""
 
-    def __init__(self, n, edges, hasdir, present, beh, workers, seed, root):
+    def __init__(self, n, edges, hasdir, present, beh, workers, seed, root, listing=None):
         import schedrun
         schedrun.load()
         self.n, self.edges, self.hasdir = n, edges, list(hasdir)
@@ -40,6 +40,7 @@ class History:
         self.clock = 0
         self.run = 0
         self.events = []
+        self.listing = listing      # fixed order in which the job lists its tasks (None: shuffled per run)
         self.cfg = dict(n=n, edges=[list(e) for e in edges], hasdir=list(hasdir), present=list(present), beh=list(beh))
 
     # faults
@@ -114,7 +115,13 @@ class History:
         tasks = {t: RTask(t) for t in range(1, self.n + 1) if self.present[t - 1]}
         hard = DepGraph()
         soft = DepGraph()
-        for t in sorted(tasks):
+        # a job may list its tasks in any order (the final task first, say): the node order of the graphs varies
+        listing = sorted(tasks)
+        if self.listing is not None:
+            listing = [t for t in self.listing if t in tasks]
+        else:
+            self.rng.shuffle(listing)
+        for t in listing:
             hard.add_node(tasks[t])
             soft.add_node(tasks[t])
         for i, j, kind in self.edges:
@@ -122,7 +129,12 @@ class History:
                 (hard if kind == 'hard' else soft).add_dependency(tasks[i], on=tasks[j])
         names = [tasks[t].name for t in sorted(tasks)]
         env = read_env(root=self.root, names=names, filename=FILENAME, fmt='pickle')
-        self.events.append(dict(type='start', env=[self._entry(env, t) for t in range(1, self.n + 1)]))
+        from valjean.cosette.scheduler import Scheduler
+        try:
+            order = [t.idx for t in Scheduler(hard_graph=hard, soft_graph=soft).full_graph.topological_sort()]
+        except Exception:  # pylint: disable=broad-except
+            order = sorted(tasks)
+        self.events.append(dict(type='start', env=[self._entry(env, t) for t in range(1, self.n + 1)], order=order))
         strat = detsched.RandomStrategy(random.Random(self.rng.random())) if schedule_ is None else detsched.Replay(schedule_)
         ctl = detsched.Controller(strat, max_steps=4000)
         ctl.clock = self.clock
@@ -155,6 +167,35 @@ class History:
 
 def closed(present, edges):
     return all(present[j - 1] for i, j, _ in edges if present[i - 1])
+
+
+def systematic_histories(ctx, wd):
+    """Every hard/soft graph on 3 tasks x every order in which the job can list them x the loss of each persisted file
+    between two runs (all tasks succeed and have an output directory)."""
+    import itertools
+    traces = []
+    k = 0
+    pairs = [(2, 1), (3, 1), (3, 2)]
+    graphs = list(itertools.product(['none', 'hard', 'soft'], repeat=3))
+    if ctx.quick:
+        graphs = [g for g in graphs if g.count('none') <= 1]
+    for kinds in graphs:
+        edges = [[i, j, kd] for (i, j), kd in zip(pairs, kinds) if kd != 'none']
+        for listing in itertools.permutations([1, 2, 3]):
+            for lost in (1, 2, 3):
+                root = os.path.join(wd, 'sys%d' % k)
+                k += 1
+                os.makedirs(root)
+                h = History(3, edges, [True] * 3, [True] * 3, ['ok'] * 3, 1 + k % 2, k, root, listing=list(listing))
+                h.do_run()
+                if h.has_file(lost):
+                    h.lose(lost)
+                h.do_run()
+                shutil.rmtree(root, ignore_errors=True)
+                traces.append(h.trace())
+                ctx.count(evaluations=1)
+                ctx.distinct(('sys', kinds, listing, lost))
+    return traces
 
 
 def random_history(rng, n, runs, workers, root, p_fault=0.7, behs=('ok', 'ok', 'fail', 'raise')):
@@ -361,7 +402,7 @@ def replay_behaviour(ctx, beh, n, root, seed):
             h.lose(int(label[label.index('(') + 1:label.index(')')]))
         elif label.startswith('Add'):
             h.add(int(label[label.index('(') + 1:label.index(')')]))
-        elif label == 'StartRun':
+        elif label.startswith('StartRun') or label.startswith('StartAny'):
             h.do_run()
         elif label == 'EndRun':
             real = h.events[-1]
@@ -438,7 +479,7 @@ def run_c04(ctx):
         if not res.ok:
             raise tlc.MachineryError('Runs/%s: TLC reports %s in the model of the intended behaviour\n%s' % (
                 name, res.violation, '\n'.join('%s %s' % (a, s and dict(env=s['env'], file=s['file'])) for a, s in res.trace[-6:])))
-        tlc.check_coverage(res, ['StartRun', 'MDecide', 'EndRun', 'Flip', 'Lose'] + (['Add'] if configs != 'MC_Chain3' else []), 'Runs/' + name)
+        tlc.check_coverage(res, ['StartAny', 'MDecide', 'EndRun', 'Flip', 'Lose'] + (['Add'] if configs != 'MC_Chain3' else []), 'Runs/' + name)
     for wit in ['W_HeadRerunTailDone', 'W_Dropped', 'W_SkippedAfterDone', 'W_Added']:
         cfg = tlc.write_cfg(os.path.join(wd, wit + '.cfg'), constants={'N': 3, 'MaxRuns': 3, 'MaxFaults': 2, 'Configs': Raw('<- MC_Dirs'),
                                                                        'Behs': frozenset({'ok', 'fail'})}, invariants=[wit])
@@ -451,6 +492,8 @@ def run_c04(ctx):
     # spec -> code
     traces3 = simulate_and_replay(ctx, wd, 3, 'MC_MixedDirs', ctx.pick(120, 1200), 60, {'ok', 'fail', 'raise'}, 4, 3)
     judge(ctx, wd, traces3, 3, 'sim3')
+    # code -> spec, systematic part
+    judge(ctx, wd, systematic_histories(ctx, wd), 3, 'sys3')
     # code -> spec
     rng = random.Random(ctx.seed * 31337 + 5)
     groups = {}
